@@ -178,13 +178,7 @@ Print Assumptions C01_chunk_list.
 (* ---- index-based backend ---- *)
 Theorem C01_items_spec : forall R rO rI radd rmul rsub ropp, ring_theory rO rI radd rmul rsub ropp eq ->
   items_spec_stmt R rO rI radd rmul.
-Proof.
-  intros R rO rI radd rmul rsub ropp Rth n ls H. split; [|split; [|split]].
-  - intros psi. exact (items_sem R rO rI radd rmul ls psi).
-  - exact (items_wf R n ls H).
-  - exact (spec_items_wf R rO rI n ls H).
-  - intros Hn Hne. exact (items_ne R n ls Hn Hne H).
-Qed.
+Proof. intros R rO rI radd rmul rsub ropp Rth n ls. exact (items_spec R rO rI radd rmul n ls). Qed.
 Print Assumptions C01_items_spec.
 
 Theorem C01_optimize_layers : forall R rO rI radd rmul rsub ropp, ring_theory rO rI radd rmul rsub ropp eq ->
@@ -196,11 +190,8 @@ Print Assumptions C01_optimize_layers.
 Theorem C01_binary_agrees_hyp : forall R rO rI radd rmul rsub ropp, ring_theory rO rI radd rmul rsub ropp eq ->
   forall entry_mat, bin_backend_correct_stmt R rO rI radd rmul entry_mat -> binary_agrees_stmt R rO rI radd rmul entry_mat.
 Proof.
-  intros R rO rI radd rmul rsub ropp Rth entry_mat Hbin n ls psi Hn Hne H.
-  destruct (std_spec R rO rI radd rmul rsub ropp Rth n ls psi Hn Hne H) as (o1 & E1 & S1).
-  destruct (binary_agrees R rO rI radd rmul entry_mat Hbin n ls psi Hn Hne H) as (o2 & E2 & S2).
-  exists o2. split; [exact E2|]. split; [exact S2|]. exists o1. split; [exact E1|].
-  eapply state_eq_trans; [exact S1 | apply state_eq_sym, S2].
+  intros R rO rI radd rmul rsub ropp Rth entry_mat Hbin n ls psi.
+  exact (binary_agrees_std R rO rI radd rmul rsub ropp Rth entry_mat Hbin n ls psi).
 Qed.
 Print Assumptions C01_binary_agrees_hyp.
 
